@@ -411,3 +411,18 @@ package tsm1
 //@ func (*encoder).Bytes
 //@   props C13
 //@   nosafety
+
+// ---- C01: after Open the WAL appends at the end of the log ----
+// Replaying the WAL (reloadCache -> CacheLoader.Load) truncates a corrupt tail off the newest segment; WAL.Open
+// positions the segment writer at the end of that file (Seek(0, End)) and the writer keeps that offset. If the
+// file can shrink after the writer was positioned, the next acknowledged entry is written behind a hole of
+// zeros and the following restart truncates it away as corruption. Ghost `positioned`: the writer's offset has
+// been fixed; `shrunk_after_positioning`: a replay (which may truncate) ran after that.
+//@ func (*Engine).Open
+//@   props C01
+//@   nosafety
+//@   ghost positioned bool = false
+//@   ghost shrunk_after_positioning bool = false
+//@   at after WAL.Open#1: ghost positioned = true
+//@   at after Engine.reloadCache#1: ghost shrunk_after_positioning = positioned
+//@   ensures append_position_at_end_of_log: result == nil ==> !shrunk_after_positioning
